@@ -522,3 +522,26 @@ mod tests {
         fast_pairing(&g1, &g2);
     }
 }
+
+// Verification hooks: compiled only with `--cfg john_yu_sm9_core_verif`; add-only, no effect on
+// normal builds. Thin wrappers that make the module-private powering visible to the checks.
+#[cfg(john_yu_sm9_core_verif)]
+pub mod verif {
+    use super::*;
+
+    pub const S: u128 = SM9_S;
+    pub const A2: u128 = SM9_A2;
+    pub const A3: u128 = SM9_A3;
+    pub const NINE: u128 = SM9_NINE;
+    pub const LOOP_N: u128 = SM9_LOOP_N;
+
+    pub fn fq12_pow(x: &Fq12, e: u128) -> Fq12 {
+        x.pow(e)
+    }
+    pub fn g2_miller_loop(q: &G2, p: &G1) -> Fq12 {
+        q.miller_loop(p)
+    }
+    pub fn prepared_miller_loop(q: &G2Prepared, p: &G1) -> Fq12 {
+        q.miller_loop(p)
+    }
+}
